@@ -65,6 +65,15 @@ Local Notation exec :=
 Local Notation seq_run :=
   (@Broker.seq_run uri uri_eqb dstate payload req ans open_doc change_doc req_uri answer local_answer diag
                    send_diagnostics).
+Local Notation seq_docs := (@Broker.seq_docs uri uri_eqb dstate payload req open_doc change_doc).
+Local Notation about := (@Broker.about uri uri_eqb payload req).
+Local Notation diag_of := (@Broker.diag_of uri uri_eqb ans).
+Local Notation diags_of := (@Broker.diags_of uri uri_eqb ans).
+Local Notation req_id := (@Broker.req_id uri payload req).
+Local Notation out_id := (@Broker.out_id uri ans).
+Local Notation fired :=
+  (@Broker.fired uri uri_eqb dstate payload req ans open_doc change_doc req_uri answer local_answer diag
+                 send_diagnostics cap).
 
 (* ------------------------------------------------------------------------------------------ *)
 (* the two output streams                                                                      *)
@@ -95,22 +104,6 @@ Proof. rewrite filter_app, <- app_assoc. cbn. destruct (f o); reflexivity. Qed.
 
 (* ------------------------------------------------------------------------------------------ *)
 (* the sequential specification, message by message                                            *)
-
-(* the document map after handling [ms] (same recursion as [seq_run]) *)
-Fixpoint seq_docs (m : docs) (ms : list cmsg) : docs :=
-  match ms with
-  | [] => m
-  | COpen u p :: r => seq_docs (insert m u (open_doc p)) r
-  | CChange u p :: r =>
-      match lookup m u with
-      | Some d0 => seq_docs (insert m u (change_doc d0 p)) r
-      | None => seq_docs m r
-      end
-  | CClose u :: r => seq_docs (remove m u) r
-  | CReq _ _ :: r => seq_docs m r
-  | CLocal _ _ :: r => seq_docs m r
-  | CIgnored :: r => seq_docs m r
-  end.
 
 Definition msg_docs (m : docs) (c : cmsg) : docs :=
   match c with
@@ -529,7 +522,7 @@ Definition measure (s : state) : nat :=
 
 Lemma step_measure p s s' : step p s = Some s' -> (measure s' < measure s)%nat.
 Proof.
-  intros Hstep. destruct s as [i w rp dq io bp st wr].
+  clear cap_pos. intros Hstep. destruct s as [i w rp dq io bp st wr].
   unfold Broker.step in Hstep. unfold measure.
   cbn [inp waiting reply docq ioq bpend store written] in *.
   destruct p.
@@ -589,15 +582,6 @@ Qed.
 
 Hypothesis uri_eqb_spec : forall a b, uri_eqb a b = true <-> a = b.
 
-(* [c] is a notification addressed to document [u] *)
-Definition about (u : uri) (c : cmsg) : bool :=
-  match c with
-  | COpen v _ => uri_eqb v u
-  | CChange v _ => uri_eqb v u
-  | CClose v => uri_eqb v u
-  | _ => false
-  end.
-
 Lemma uri_eqb_refl u : uri_eqb u u = true.
 Proof. apply uri_eqb_spec. reflexivity. Qed.
 
@@ -625,18 +609,18 @@ Lemma isolation_gen u ms : forall m m', lookup m u = lookup m' u ->
   lookup (seq_docs m ms) u = lookup (seq_docs m' (filter (about u) ms)) u.
 Proof.
   induction ms as [|c ms IH]; intros m m' H; [exact H|].
-  cbn [filter]. destruct c as [v p|v p|v|id r|id k|]; cbn [about];
-    try (cbn [seq_docs]; apply IH; exact H).
-  - destruct (uri_eqb v u) eqn:E; cbn [seq_docs]; apply IH.
+  cbn [filter]. destruct c as [v p|v p|v|id r|id k|]; cbn [Broker.about];
+    try (cbn [Broker.seq_docs]; apply IH; exact H).
+  - destruct (uri_eqb v u) eqn:E; cbn [Broker.seq_docs]; apply IH.
     + apply uri_eqb_spec in E. subst v. rewrite !lookup_insert_same. reflexivity.
     + rewrite lookup_insert_other; assumption.
-  - destruct (uri_eqb v u) eqn:E; cbn [seq_docs].
+  - destruct (uri_eqb v u) eqn:E; cbn [Broker.seq_docs].
     + apply uri_eqb_spec in E. subst v. rewrite <- H.
       destruct (lookup m u) as [d0|] eqn:L; apply IH.
       * rewrite !lookup_insert_same. reflexivity.
       * rewrite L. exact H.
     + destruct (lookup m v); apply IH; [rewrite lookup_insert_other|]; assumption.
-  - destruct (uri_eqb v u) eqn:E; cbn [seq_docs]; apply IH.
+  - destruct (uri_eqb v u) eqn:E; cbn [Broker.seq_docs]; apply IH.
     + apply uri_eqb_spec in E. subst v. rewrite !lookup_remove_same. reflexivity.
     + rewrite lookup_remove_other; assumption.
 Qed.
@@ -654,7 +638,7 @@ Lemma absent_until_open u ms : forall m,
 Proof.
   induction ms as [|c ms IH]; intros m H Hno; [exact H|].
   assert (Hno' : forall p, ~ In (COpen u p) ms) by (intros p Hp; apply (Hno p); right; exact Hp).
-  destruct c as [v p|v p|v|id r|id k|]; cbn [seq_docs]; try (apply IH; assumption).
+  destruct c as [v p|v p|v|id r|id k|]; cbn [Broker.seq_docs]; try (apply IH; assumption).
   - apply IH; [|assumption]. destruct (uri_eqb v u) eqn:E.
     + apply uri_eqb_spec in E. subst v. exfalso. apply (Hno p). left. reflexivity.
     + rewrite lookup_insert_other; assumption.
@@ -670,11 +654,348 @@ Qed.
 Theorem closed_until_open m ms ms' u :
   (forall p, ~ In (COpen u p) ms') -> lookup (seq_docs m (ms ++ CClose u :: ms')) u = None.
 Proof.
-  intros H. rewrite seq_docs_app. cbn [seq_docs]. apply absent_until_open; [|exact H].
+  intros H. rewrite seq_docs_app. cbn [Broker.seq_docs]. apply absent_until_open; [|exact H].
   apply lookup_remove_same.
 Qed.
 
+(* a (re)opened document starts from the opened text alone: nothing that happened before the
+   didOpen - in particular no earlier content of the same URI - influences it *)
+Theorem reopen_fresh m pre u p post :
+  lookup (seq_docs m (pre ++ COpen u p :: post)) u
+  = lookup (seq_docs [] (COpen u p :: filter (about u) post)) u.
+Proof.
+  rewrite seq_docs_app. cbn [Broker.seq_docs]. apply isolation_gen.
+  rewrite !lookup_insert_same. reflexivity.
+Qed.
+
+(* ------------------------------------------------------------------------------------------ *)
+(* 7. read-your-writes and response order, made explicit on the sequential specification       *)
+
+Lemma resp_at m pre id r post :
+  responses (seq_run m (pre ++ CReq id r :: post))
+  = responses (seq_run m pre)
+    ++ OResp id (answer r (lookup (seq_docs m pre) (req_uri r)))
+    :: responses (seq_run (seq_docs m pre) post).
+Proof. rewrite resp_app, resp_cons. reflexivity. Qed.
+
+Lemma out_id_responses (l : list out) : flat_map out_id (responses l) = flat_map out_id l.
+Proof.
+  unfold Broker.responses. induction l as [|o l IH]; [reflexivity|].
+  destruct o; cbn [filter Broker.is_resp flat_map Broker.out_id app]; rewrite IH; reflexivity.
+Qed.
+
+Lemma out_id_diags_for u d : flat_map out_id (diags_for u d) = [].
+Proof. unfold Broker.diags_for. destruct send_diagnostics; reflexivity. Qed.
+
+Lemma seq_resp_ids ms : forall m, flat_map out_id (seq_run m ms) = flat_map req_id ms.
+Proof.
+  induction ms as [|c r IH]; intros m; [reflexivity|].
+  destruct c as [u p|u p|u|id q|id k|]; cbn [Broker.seq_run flat_map Broker.req_id app].
+  - rewrite flat_map_app, out_id_diags_for. apply IH.
+  - destruct (lookup m u); [|apply IH]. rewrite flat_map_app, out_id_diags_for. apply IH.
+  - apply IH.
+  - cbn [Broker.out_id app]. rewrite IH. reflexivity.
+  - cbn [Broker.out_id app]. rewrite IH. reflexivity.
+  - apply IH.
+Qed.
+
+(* at quiescence every request has been answered exactly once and in request order ... *)
+Theorem response_order ms sched :
+  let s := exec sched (init ms) in
+  quiescent s -> flat_map out_id (written s) = flat_map req_id ms.
+Proof.
+  intros s Q. destruct (refines ms sched Q) as [E _]. fold s in E.
+  rewrite <- out_id_responses, E, out_id_responses. apply seq_resp_ids.
+Qed.
+
+(* ... and at every moment the ids answered so far are a prefix of the request ids *)
+Theorem response_order_prefix ms sched :
+  exists t, flat_map req_id ms = flat_map out_id (written (exec sched (init ms))) ++ t.
+Proof.
+  destruct (prefix ms sched) as [(t & E) _]. cbv zeta in E.
+  exists (flat_map out_id t).
+  rewrite <- (seq_resp_ids ms []), <- out_id_responses, E, flat_map_app, out_id_responses. reflexivity.
+Qed.
+
+(* read-your-writes: under every schedule the response to a request is computed from the
+   document map produced by exactly the messages that precede the request *)
+Theorem read_your_writes pre id r post sched :
+  let s := exec sched (init (pre ++ CReq id r :: post)) in
+  quiescent s ->
+  responses (written s)
+  = responses (seq_run [] pre)
+    ++ OResp id (answer r (lookup (seq_docs [] pre) (req_uri r)))
+    :: responses (seq_run (seq_docs [] pre) post).
+Proof.
+  intros s Q. destruct (refines _ sched Q) as [E _]. fold s in E. rewrite E. apply resp_at.
+Qed.
+
+(* isolation, observably: that response depends only on the notifications addressed to the
+   request's own document *)
+Theorem isolation_response pre id r post sched :
+  let s := exec sched (init (pre ++ CReq id r :: post)) in
+  quiescent s ->
+  responses (written s)
+  = responses (seq_run [] pre)
+    ++ OResp id (answer r (lookup (seq_docs [] (filter (about (req_uri r)) pre)) (req_uri r)))
+    :: responses (seq_run (seq_docs [] pre) post).
+Proof.
+  intros s Q. unfold s. rewrite (read_your_writes pre id r post sched Q), <- isolation. reflexivity.
+Qed.
+
+(* a request for a closed document (closed, not reopened since) is answered from "no document" *)
+Theorem closed_response pre mid id r post sched :
+  (forall p, ~ In (COpen (req_uri r) p) mid) ->
+  let ms0 := pre ++ CClose (req_uri r) :: mid in
+  let s := exec sched (init (ms0 ++ CReq id r :: post)) in
+  quiescent s ->
+  responses (written s)
+  = responses (seq_run [] ms0) ++ OResp id (answer r None) :: responses (seq_run (seq_docs [] ms0) post).
+Proof.
+  intros H ms0 s Q. unfold s. rewrite (read_your_writes ms0 id r post sched Q).
+  unfold ms0. rewrite (closed_until_open [] pre mid (req_uri r) H). reflexivity.
+Qed.
+
+(* ------------------------------------------------------------------------------------------ *)
+(* 8. the diagnostics of one document                                                          *)
+
+Lemma diags_of_diagnostics u (l : list out) : diags_of u (diagnostics l) = diags_of u l.
+Proof.
+  unfold Broker.diags_of, Broker.diagnostics.
+  induction l as [|o l IH]; [reflexivity|].
+  destruct o; cbn [filter Broker.is_resp negb Broker.diag_of]; rewrite IH; reflexivity.
+Qed.
+
+Lemma diags_of_app u (a b : list out) : diags_of u (a ++ b) = diags_of u a ++ diags_of u b.
+Proof. apply filter_app. Qed.
+
+Lemma diags_of_diags_for u v d :
+  diags_of u (diags_for v d) = if uri_eqb v u then diags_for v d else [].
+Proof.
+  unfold Broker.diags_of, Broker.diags_for. destruct send_diagnostics; cbn.
+  - destruct (uri_eqb v u); reflexivity.
+  - destruct (uri_eqb v u); reflexivity.
+Qed.
+
+(* isolation of the diagnostics stream of [u]: it is the whole diagnostics stream of the session
+   restricted to the notifications addressed to [u] *)
+Lemma isolation_diag_gen u ms : forall m m', lookup m u = lookup m' u ->
+  diags_of u (diagnostics (seq_run m ms)) = diagnostics (seq_run m' (filter (about u) ms)).
+Proof.
+  induction ms as [|c ms IH]; intros m m' H; [reflexivity|].
+  rewrite diag_cons, diags_of_app. cbn [filter].
+  destruct c as [v p|v p|v|id r|id k|]; cbn [Broker.about msg_diag msg_docs];
+    try (cbn [Broker.diags_of filter app]; apply IH; exact H).
+  - rewrite diags_of_diags_for. destruct (uri_eqb v u) eqn:E.
+    + rewrite diag_cons. cbn [msg_diag msg_docs]. f_equal. apply IH.
+      apply uri_eqb_spec in E. subst v. rewrite !lookup_insert_same. reflexivity.
+    + cbn [app]. apply IH. rewrite lookup_insert_other; assumption.
+  - destruct (uri_eqb v u) eqn:E.
+    + rewrite diag_cons. cbn [msg_diag msg_docs].
+      apply uri_eqb_spec in E. subst v. rewrite <- H.
+      destruct (lookup m u) as [d0|] eqn:L.
+      * rewrite diags_of_diags_for, uri_eqb_refl. f_equal. apply IH.
+        rewrite !lookup_insert_same. reflexivity.
+      * cbn [Broker.diags_of filter app]. apply IH. rewrite L. exact H.
+    + destruct (lookup m v) as [d0|].
+      * rewrite diags_of_diags_for, E. cbn [app]. apply IH. rewrite lookup_insert_other; assumption.
+      * cbn [Broker.diags_of filter app]. apply IH. exact H.
+  - cbn [Broker.diags_of filter app]. destruct (uri_eqb v u) eqn:E.
+    + rewrite diag_cons. cbn [msg_diag msg_docs app]. apply IH.
+      apply uri_eqb_spec in E. subst v. rewrite !lookup_remove_same. reflexivity.
+    + apply IH. rewrite lookup_remove_other; assumption.
+Qed.
+
+Theorem isolation_diag u ms sched :
+  let s := exec sched (init ms) in
+  quiescent s ->
+  diags_of u (written s) = diagnostics (seq_run [] (filter (about u) ms)).
+Proof.
+  intros s Q. destruct (refines ms sched Q) as [_ E]. fold s in E.
+  rewrite <- diags_of_diagnostics, E. apply isolation_diag_gen. reflexivity.
+Qed.
+
+(* the last diagnostics published for an open document are those of its current content *)
+Lemma seq_last_diag u : send_diagnostics = true -> forall ms d,
+  lookup (seq_docs [] ms) u = Some d ->
+  exists pre, diags_of u (diagnostics (seq_run [] ms)) = pre ++ [ODiag u (diag u d)].
+Proof.
+  intros SD ms. induction ms as [|c a IH] using rev_ind; intros d H; [discriminate H|].
+  rewrite seq_docs_snoc in H. rewrite diag_snoc, diags_of_app.
+  assert (DF : forall v x, diags_for v x = [ODiag v (diag v x)])
+    by (intros; unfold Broker.diags_for; rewrite SD; reflexivity).
+  assert (keep : forall d', lookup (seq_docs [] a) u = Some d' ->
+            exists pre, diags_of u (diagnostics (seq_run [] a)) ++ [] = pre ++ [ODiag u (diag u d')])
+    by (intros d' H'; rewrite app_nil_r; apply IH; exact H').
+  destruct c as [v p|v p|v|id r|id k|]; cbn [msg_docs msg_diag] in *;
+    try (apply keep; exact H).
+  - destruct (uri_eqb v u) eqn:E.
+    + apply uri_eqb_spec in E. subst v. rewrite lookup_insert_same in H. injection H as <-.
+      rewrite DF. cbn. rewrite uri_eqb_refl. eexists. reflexivity.
+    + rewrite lookup_insert_other in H by assumption.
+      rewrite DF. cbn [Broker.diags_of filter Broker.diag_of]. rewrite E. apply keep. exact H.
+  - destruct (lookup (seq_docs [] a) v) as [d0|] eqn:L.
+    + destruct (uri_eqb v u) eqn:E.
+      * apply uri_eqb_spec in E. subst v. rewrite lookup_insert_same in H. injection H as <-.
+        rewrite DF. cbn. rewrite uri_eqb_refl. eexists. reflexivity.
+      * rewrite lookup_insert_other in H by assumption.
+        rewrite DF. cbn [Broker.diags_of filter Broker.diag_of]. rewrite E. apply keep. exact H.
+    + apply keep. exact H.
+  - destruct (uri_eqb v u) eqn:E.
+    + apply uri_eqb_spec in E. subst v. rewrite lookup_remove_same in H. discriminate H.
+    + rewrite lookup_remove_other in H by assumption. apply keep. exact H.
+Qed.
+
+Theorem last_diag u d ms sched :
+  send_diagnostics = true ->
+  let s := exec sched (init ms) in
+  quiescent s -> lookup (store s) u = Some d ->
+  exists pre, diags_of u (written s) = pre ++ [ODiag u (diag u d)].
+Proof.
+  intros SD s Q H. destruct (refines ms sched Q) as [_ E]. fold s in E.
+  rewrite <- diags_of_diagnostics, E. apply seq_last_diag; [exact SD|].
+  rewrite <- (store_final ms sched Q). exact H.
+Qed.
+
+(* ------------------------------------------------------------------------------------------ *)
+(* 9. every schedule does a bounded amount of work: at most 6 steps fire per client message     *)
+
+Lemma fired_measure sched : forall s, (fired sched s + measure (exec sched s) <= measure s)%nat.
+Proof.
+  clear cap_pos uri_eqb_spec.
+  induction sched as [|p r IH]; intros s; cbn [Broker.fired Broker.exec]; [lia|].
+  destruct (step p s) as [s'|] eqn:E.
+  - apply step_measure in E. specialize (IH s'). lia.
+  - apply IH.
+Qed.
+
+Theorem fired_bound ms sched : (fired sched (init ms) <= 6 * length ms)%nat.
+Proof.
+  clear cap_pos uri_eqb_spec.
+  pose proof (fired_measure sched (init ms)) as H.
+  unfold measure at 2 in H. cbn [inp waiting docq ioq bpend Broker.init length] in H. lia.
+Qed.
+
 End BrokerProofs.
+
+(* ------------------------------------------------------------------------------------------ *)
+(* The same theorems for an arbitrary [world] (Model/Broker.v): every parameter of the model is
+   universally quantified.  These are the statements Props/C20.v publishes. *)
+
+Ltac wunfold :=
+  unfold w_quiescent, w_run, w_fired, w_spec, w_spec_from, w_docs_after, w_docs_from, w_lookup, w_written,
+         w_store, w_responses, w_diagnostics, w_diags_of, w_about, w_req_ids, w_out_ids, w_step, w_uri_ok,
+         w_msg, w_out, w_state, w_docs in *.
+
+Lemma w_refines : forall (w : world) (ms : list (w_msg w)) (sched : list proc),
+  let s := w_run w sched ms in
+  w_quiescent w s ->
+  w_responses w (w_written w s) = w_responses w (w_spec w ms) /\
+  w_diagnostics w (w_written w s) = w_diagnostics w (w_spec w ms).
+Proof. intros w ms sched. wunfold. apply refines. Qed.
+
+Lemma w_prefix : forall (w : world) (ms : list (w_msg w)) (sched : list proc),
+  let s := w_run w sched ms in
+  (exists t, w_responses w (w_spec w ms) = w_responses w (w_written w s) ++ t) /\
+  (exists t, w_diagnostics w (w_spec w ms) = w_diagnostics w (w_written w s) ++ t).
+Proof. intros w ms sched. wunfold. apply prefix. Qed.
+
+Lemma w_store_final : forall (w : world) (ms : list (w_msg w)) (sched : list proc),
+  let s := w_run w sched ms in
+  w_quiescent w s -> w_store w s = w_docs_after w ms.
+Proof. intros w ms sched. wunfold. apply store_final. Qed.
+
+Lemma w_response_order : forall (w : world) (ms : list (w_msg w)) (sched : list proc),
+  let s := w_run w sched ms in
+  w_quiescent w s -> w_out_ids w (w_written w s) = w_req_ids w ms.
+Proof. intros w ms sched. wunfold. apply response_order. Qed.
+
+Lemma w_response_order_prefix : forall (w : world) (ms : list (w_msg w)) (sched : list proc),
+  exists t, w_req_ids w ms = w_out_ids w (w_written w (w_run w sched ms)) ++ t.
+Proof. intros w ms sched. wunfold. apply response_order_prefix. Qed.
+
+Lemma w_read_your_writes : forall (w : world) (pre : list (w_msg w)) (id : N) (r : w_req w)
+                                  (post : list (w_msg w)) (sched : list proc),
+  let s := w_run w sched (pre ++ CReq id r :: post) in
+  w_quiescent w s ->
+  w_responses w (w_written w s)
+  = w_responses w (w_spec w pre)
+    ++ OResp id (w_answer w r (w_lookup w (w_docs_after w pre) (w_req_uri w r)))
+    :: w_responses w (w_spec_from w (w_docs_after w pre) post).
+Proof. intros w pre id r post sched. wunfold. apply read_your_writes. Qed.
+
+Lemma w_last_diag : forall (w : world) (u : w_uri w) (d : w_dstate w) (ms : list (w_msg w)) (sched : list proc),
+  w_uri_ok w -> w_send_diagnostics w = true ->
+  let s := w_run w sched ms in
+  w_quiescent w s -> w_lookup w (w_store w s) u = Some d ->
+  exists pre, w_diags_of w u (w_written w s) = pre ++ [ODiag u (w_diag w u d)].
+Proof. intros w u d ms sched OK SD. wunfold. apply last_diag; assumption. Qed.
+
+Lemma w_caps : forall (w : world) (ms : list (w_msg w)) (sched : list proc),
+  w_send_diagnostics w = false -> w_diagnostics w (w_written w (w_run w sched ms)) = [].
+Proof. intros w ms sched. wunfold. apply caps. Qed.
+
+Lemma w_isolation : forall (w : world) (u : w_uri w) (ms : list (w_msg w)),
+  w_uri_ok w ->
+  w_lookup w (w_docs_after w ms) u = w_lookup w (w_docs_after w (filter (w_about w u) ms)) u.
+Proof. intros w u ms OK. wunfold. apply isolation. exact OK. Qed.
+
+Lemma w_isolation_response : forall (w : world) (pre : list (w_msg w)) (id : N) (r : w_req w)
+                                    (post : list (w_msg w)) (sched : list proc),
+  w_uri_ok w ->
+  let s := w_run w sched (pre ++ CReq id r :: post) in
+  w_quiescent w s ->
+  w_responses w (w_written w s)
+  = w_responses w (w_spec w pre)
+    ++ OResp id (w_answer w r (w_lookup w (w_docs_after w (filter (w_about w (w_req_uri w r)) pre)) (w_req_uri w r)))
+    :: w_responses w (w_spec_from w (w_docs_after w pre) post).
+Proof. intros w pre id r post sched OK. wunfold. apply isolation_response. exact OK. Qed.
+
+Lemma w_isolation_diag : forall (w : world) (u : w_uri w) (ms : list (w_msg w)) (sched : list proc),
+  w_uri_ok w ->
+  let s := w_run w sched ms in
+  w_quiescent w s ->
+  w_diags_of w u (w_written w s) = w_diagnostics w (w_spec w (filter (w_about w u) ms)).
+Proof. intros w u ms sched OK. wunfold. apply isolation_diag. exact OK. Qed.
+
+Lemma w_closed_until_open : forall (w : world) (m : w_docs w) (ms ms' : list (w_msg w)) (u : w_uri w),
+  w_uri_ok w ->
+  (forall p, ~ In (COpen u p) ms') -> w_lookup w (w_docs_from w m (ms ++ CClose u :: ms')) u = None.
+Proof. intros w m ms ms' u OK. wunfold. apply closed_until_open. exact OK. Qed.
+
+Lemma w_closed_response : forall (w : world) (pre mid : list (w_msg w)) (id : N) (r : w_req w)
+                                 (post : list (w_msg w)) (sched : list proc),
+  w_uri_ok w ->
+  (forall p, ~ In (COpen (w_req_uri w r) p) mid) ->
+  let ms0 := pre ++ CClose (w_req_uri w r) :: mid in
+  let s := w_run w sched (ms0 ++ CReq id r :: post) in
+  w_quiescent w s ->
+  w_responses w (w_written w s)
+  = w_responses w (w_spec w ms0) ++ OResp id (w_answer w r None)
+    :: w_responses w (w_spec_from w (w_docs_after w ms0) post).
+Proof. intros w pre mid id r post sched OK. wunfold. apply closed_response. exact OK. Qed.
+
+Lemma w_reopen_fresh : forall (w : world) (m : w_docs w) (pre : list (w_msg w)) (u : w_uri w) (p : w_payload w)
+                              (post : list (w_msg w)),
+  w_uri_ok w ->
+  w_lookup w (w_docs_from w m (pre ++ COpen u p :: post)) u
+  = w_lookup w (w_docs_after w (COpen u p :: filter (w_about w u) post)) u.
+Proof. intros w m pre u p post OK. wunfold. apply reopen_fresh. exact OK. Qed.
+
+Lemma w_no_deadlock : forall (w : world) (ms : list (w_msg w)) (sched : list proc),
+  (0 < w_cap w)%nat ->
+  let s := w_run w sched ms in
+  ~ w_quiescent w s -> exists p s', w_step w p s = Some s'.
+Proof. intros w ms sched CP. wunfold. apply no_deadlock. exact CP. Qed.
+
+Lemma w_terminates_any : forall (w : world) (ms : list (w_msg w)) (sched0 : list proc),
+  (0 < w_cap w)%nat ->
+  exists sched, w_quiescent w (w_run w (sched0 ++ sched) ms).
+Proof. intros w ms sched0 CP. wunfold. apply terminates_any. exact CP. Qed.
+
+Lemma w_fired_bound : forall (w : world) (ms : list (w_msg w)) (sched : list proc),
+  (w_fired w sched ms <= 6 * length ms)%nat.
+Proof. intros w ms sched. wunfold. apply fired_bound. Qed.
 
 (* ------------------------------------------------------------------------------------------ *)
 (* a concrete instance for the examples of Props/C20.v: URIs and texts are numbers / lists of
@@ -696,6 +1017,15 @@ Module BrokerDemo.
     seq_docs N N.eqb (list N) (list N) N (fun p => p) (@app N) [] ms.
   Definition d_quiescent (s : dstate_t) : Prop := @quiescent N (list N) (list N) N (list N) s.
   Definition d_written (s : dstate_t) : list dout := @written N (list N) (list N) N (list N) s.
+
+  (* the same instance as a [world] *)
+  Definition demo_world (sd : bool) (cap : nat) : world :=
+    {| w_uri := N; w_uri_eqb := N.eqb; w_dstate := list N; w_payload := list N; w_req := N; w_ans := list N;
+       w_open_doc := fun p => p; w_change_doc := @app N; w_req_uri := fun r => r; w_answer := d_answer;
+       w_local_answer := fun k => [k]; w_diag := fun _ d => d; w_send_diagnostics := sd; w_cap := cap |}.
+
+  Lemma demo_uri_ok sd cap : w_uri_ok (demo_world sd cap).
+  Proof. intros a b. apply N.eqb_eq. Qed.
 
   Fixpoint rounds (n : nat) (round : list proc) : list proc :=
     match n with O => [] | S k => round ++ rounds k round end.
